@@ -209,7 +209,8 @@ func (b *assignmentBuilder) structFieldAndStructGettersAndFields(lhs bmodel.Node
 		return true
 	}
 
-	if opts.Getter {
+	// With ":match none" nothing is matched by name, getters included.
+	if opts.Getter && opts.Rule == gmodel.MatchRuleName {
 		bmodel.IterateStructMethods(rhsStruct, handler)
 		if a != nil || err != nil {
 			return a, err
